@@ -152,7 +152,7 @@ func traceMain(args []string) int {
 	defer tf.Close()
 	cenc := json.NewEncoder(cw)
 	tenc := json.NewEncoder(tw)
-	nCases, nEvents, skipped := 0, 0, 0
+	nCases, nEvents, skipped, overBudget := 0, 0, 0, 0
 	for _, id := range order {
 		c := cases[id]
 		src := nstr(c, "src")
@@ -178,8 +178,13 @@ func traceMain(args []string) int {
 			// one trace per command: the engine runs the commands one after another
 			var rec []engine.VerifStep
 			stepRec = &rec
-			ms, p, _, _, _ := runSafe(v, string(text), 0)
+			// budgeted: a run that needs more than 200000 instructions is not recorded
+			ms, p, _, _, over := runSafe(v, string(text), 200000)
 			stepRec = nil
+			if over {
+				overBudget++
+				continue
+			}
 			if p != "" {
 				skipped++
 				continue
@@ -211,7 +216,7 @@ func traceMain(args []string) int {
 	}
 	cw.Flush()
 	tw.Flush()
-	fmt.Printf("{\"cases\":%d,\"events\":%d,\"skipped\":%d}\n", nCases, nEvents, skipped)
+	fmt.Printf("{\"cases\":%d,\"events\":%d,\"skipped\":%d,\"over_budget\":%d}\n", nCases, nEvents, skipped, overBudget)
 	return 0
 }
 
